@@ -91,8 +91,9 @@ def _scramble(s):
 
 
 def _fresh(target):
-    code = ("import sys, json; sys.path.insert(0, %r); from harness import cutfind; "
-            "print('RESULT' + json.dumps(cutfind.run_real(json.loads(sys.argv[1]))))" % str(VERIF))
+    # the same error mapping as core.call_real: a refusal in the fresh interpreter is a result, not a crash
+    code = ("import sys, json; sys.path.insert(0, %r); from harness import cutfind, core; "
+            "print('RESULT' + json.dumps(core.call_real(cutfind.run_real, json.loads(sys.argv[1]), timeout=280)))" % str(VERIF))
     p = subprocess.run([sys.executable, "-W", "ignore", "-c", code, json.dumps({k: v for k, v in target.items() if not k.startswith("_")})],
                        capture_output=True, text=True, timeout=300)
     for l in p.stdout.splitlines():
